@@ -2259,7 +2259,7 @@ func main() {
 
 	var b strings.Builder
 	b.WriteString("-- GENERATED by xlate/c03 from lang/pack — do not edit; regenerated on every check run\n")
-	b.WriteString("import Golib.Layout.IR\n\nnamespace Gen.Packs\nopen Layout\n\n")
+	b.WriteString("import Golib.Layout.IR\nimport Golib.Layout.HeaderProg\n\nnamespace Gen.Packs\nopen Layout\n\n")
 	for _, l := range ordered {
 		// a reference to a layout that was not generated must not compile silently: define it as unknown
 		for _, refs := range []map[string]bool{l.wRefs, l.rRefs} {
@@ -2427,6 +2427,18 @@ func main() {
 	b.WriteString(strings.Join(caps, ",\n"))
 	b.WriteString("\n]\n\n")
 
+	// the common header, statement by statement (header.go)
+	{
+		var wd, rd *ast.FuncDecl
+		if f := find("AbstractPack", "Write"); f != nil {
+			wd = f.decl
+		}
+		if f := find("AbstractPack", "Read"); f != nil {
+			rd = f.decl
+		}
+		b.WriteString(headerProgs(wd, rd))
+	}
+
 	// skeletons: one definition per function (name with '.' replaced by '_')
 	b.WriteString("/-! statement skeletons (statements touching a stream or the receiver's fields, normalised source text) -/\nnamespace skel\n")
 	var sks []string
@@ -2472,7 +2484,7 @@ func skeletonWanted(f *fnInfo) bool {
 	}
 	switch f.name {
 	case "SetRecords", "SetRecordsList", "SetRecordsArray", "GetRecords", "doZip", "doUnZip", "ToBytesPack", "ToPack",
-		"writeTable", "readTable", "unpack", "GetContentBytes", "SetContentBytes", "ResetTagHash":
+		"writeTable", "readTable", "unpack", "GetContentBytes", "SetContentBytes", "ResetTagHash", "ToBytesPackECB":
 		return true
 	}
 	return false
